@@ -206,10 +206,54 @@ def _trig(x):
     return c, s
 
 
+def angle(z):
+    """np.angle of a symbolic complex z != 0: an opaque angle theta whose
+    unit phasor (c, s) satisfies |z| c = re z, |z| s = im z, c^2 + s^2 = 1.
+    cos/sin/exp(1j*.) of +-theta fold to (c, +-s)."""
+    from .core import SComplex
+    ctx = cur()
+    if not isinstance(z, SComplex):
+        z = SComplex(z if isinstance(z, SReal) else SReal(z), 0)
+    k = ('angle', z.re.p.key(), z.im.p.key())
+    a = ctx.memo.get(k)
+    if a is None:
+        mag = abs(z)
+        ctx.ensure_nonzero(mag.p, 'angle of zero')
+        n = next(ctx.fresh)
+        c = ctx.real('phc%d' % n, lo=-1, hi=1)
+        s_ = ctx.real('phs%d' % n, lo=-1, hi=1)
+        a = ctx.new_atom('angle%d' % n, 'angle', (c, s_, z))
+        ctx.memo[k] = a
+        ctx.hyps.append(('phasor:unit', (c * c + s_ * s_ - 1).p))
+        ctx.hyps.append(('phasor:re', (mag * c - z.re).p))
+        ctx.hyps.append(('phasor:im', (mag * s_ - z.im).p))
+        ctx.add(z3.And(c.z3() * c.z3() + s_.z3() * s_.z3() == 1,
+                       mag.z3() * c.z3() == z.re.z3(),
+                       mag.z3() * s_.z3() == z.im.z3(),
+                       a.z > -4, a.z < 4))
+    return SReal(Poly.atom(a.id))
+
+
+def _angle_phasor(x):
+    """(c, s) if x is +-(angle atom), else None"""
+    single = x.p.monomial_single()
+    if single is None or single[0] not in (1, -1) or len(single[1]) != 1 \
+            or single[1][0][1] != 1:
+        return None
+    at = cur().atoms[single[1][0][0]]
+    if at.kind != 'angle':
+        return None
+    c, s_, _ = at.data
+    return (c, s_) if single[0] == 1 else (c, -s_)
+
+
 def cos(x):
     x = x if isinstance(x, SReal) else SReal(x)
     if x.p.is_zero():
         return SReal(1)
+    ph = _angle_phasor(x)
+    if ph is not None:
+        return ph[0]
     return _trig(x)[0]
 
 
@@ -217,6 +261,9 @@ def sin(x):
     x = x if isinstance(x, SReal) else SReal(x)
     if x.p.is_zero():
         return SReal(0)
+    ph = _angle_phasor(x)
+    if ph is not None:
+        return ph[1]
     return _trig(x)[1]
 
 
